@@ -28,6 +28,7 @@ import (
 	"verifharness/detrand"
 	"verifharness/evid"
 	"verifharness/issuer"
+	"verifharness/ldsref"
 	"verifharness/persona"
 	"verifharness/readcheck"
 	"verifharness/ref/ecc"
@@ -476,6 +477,19 @@ func runSession(rt failer, o persona.Opts, libSeed, mseed []byte) {
 				}
 			}
 		}
+		// (6) EF.CardAccess is covered by no hash; what vouches for it is the completeness verdict
+		// (every one of its entries must be an entry of DG14): an octet changed inside it that leaves
+		// some entry outside DG14 must make that verdict fail offline
+		if live.Verify {
+			files := readcheck.DocFiles(&r.DocEx.Document)
+			ca, dg14 := files["CardAccess"], files["DG14"]
+			for k := 0; k < 3 && len(ca) > 4 && len(dg14) > 4; k++ {
+				mut := append([]byte{}, ca...)
+				i := 2 + st.intn(len(mut)-2)
+				mut[i] ^= byte(1 + st.intn(255))
+				checkCardAccessTampered(rt, p, r.DocEx, mut, dg14, i, rep)
+			}
+		}
 	}
 }
 
@@ -556,6 +570,49 @@ func checkFileTampered(rt failer, p *persona.Persona, ex *document.DocumentEx, n
 			r2[k] = v
 		}
 		evid.Fail(rt, "tamper-file-"+name, r2, "file %s changed at offset %d but passive authentication still passes offline", name, pos)
+	}
+}
+
+func checkCardAccessTampered(rt failer, p *persona.Persona, ex *document.DocumentEx, mut, dg14 []byte, pos int, rep map[string]any) {
+	mv, err1 := ldsref.SecurityInfos(mut)
+	dv, err2 := ldsref.DG14(dg14)
+	if err1 != nil || err2 != nil {
+		evid.Count("cardaccess-mutation-not-a-securityinfos-set", 1)
+		return
+	}
+	foreign := false
+	for _, e := range mv.Infos {
+		in := false
+		for _, d := range dv.Infos {
+			in = in || bytes.Equal(e.Raw, d.Raw)
+		}
+		foreign = foreign || !in
+	}
+	if !foreign {
+		evid.Count("cardaccess-mutation-still-contained", 1)
+		return
+	}
+	c := *ex
+	doc := c.Document
+	var err error
+	if doc.Mf.CardAccess, err = document.NewCardAccess(mut); err != nil {
+		evid.Count("file-mutation-unparsable", 1)
+		return
+	}
+	c.Document = doc
+	evid.CaseFn("tamper-file/CardAccess", true, fmt.Sprintf("CardAccess/%d/%x", pos, mut[pos]), func() any {
+		return map[string]any{"file": "CardAccess", "file_len": len(mut), "position": pos, "new_octet": mut[pos], "mutated_file": evid.Hex(mut), "entries": len(mv.Infos)}
+	})
+	off, err := offline(p, &c)
+	if err != nil {
+		return
+	}
+	if verdictOf(&off.Session).Verify {
+		r2 := map[string]any{"file": "CardAccess", "pos": pos, "mutated": hex.EncodeToString(mut), "dg14": hex.EncodeToString(dg14)}
+		for k, v := range rep {
+			r2[k] = v
+		}
+		evid.Fail(rt, "tamper-file-CardAccess", r2, "EF.CardAccess changed at offset %d (an entry is no longer an entry of DG14) but the completeness verdict still passes offline", pos)
 	}
 }
 
